@@ -26,7 +26,7 @@ pub fn exp_contract(x: f64) -> f64 {
 #[kani::proof]
 #[kani::stub(f64::exp, exp_contract)]
 fn c11_quality_multiplier_range() {
-    let c = any_conn(1, Sym { rtt: 2, score_floats: false });
+    let c = any_conn(1, Sym { rtt: 2, score_floats: false, leaf_domain: false });
     let now = any_time();
     let q = calculate_quality_multiplier(&c, now);
     assert!(q.is_finite(), "quality multiplier is finite");
@@ -48,4 +48,32 @@ fn c11_in_flight_cap_range() {
             assert!(cap >= 1, "the cap never drops below one packet");
         }
     }
+}
+
+/// The tables used in place of the two f64 leaves of the enhanced selector are EXACT on the leaf
+/// domain: the real `in_flight_cap_exceeded` and the real (private, hook-exported)
+/// `cc_soft_cap_multiplier` equal them for every link of the domain (any in-flight count).  Also
+/// decides the soft-cap factor's documented range [0.1, 1] on the domain.
+#[kani::proof]
+fn c11_leaf_tables_exact() {
+    let c = any_conn(1, SYM_LEAF);
+    let real_cap = in_flight_cap_exceeded(&c);
+    assert!(real_cap == leaf_tables::cap_exceeded(&c), "BDP in-flight cap: table == real function on the leaf domain");
+    let real_soft = srtla_core::selection::enhanced::vh_cc_soft_cap_multiplier(&c);
+    assert!(real_soft == leaf_tables::soft_cap(&c), "CC soft cap: table == real function on the leaf domain");
+    assert!(real_soft >= 0.1 && real_soft <= 1.0, "soft-cap factor within [0.1, 1]");
+    kani::cover!(real_cap && c.cc_target_bps == leaf_tables::T_SMALL, "capped at one packet");
+    kani::cover!(real_cap && c.cc_target_bps == leaf_tables::T_BIG, "capped at the large BDP");
+    kani::cover!(real_soft == 0.1, "saturated link: floor");
+    kani::cover!(real_soft == 0.5, "half loaded");
+    core::mem::forget(c);
+}
+
+/// Soft-cap factor range for EVERY input (not only the leaf domain).
+#[kani::proof]
+fn c11_soft_cap_range() {
+    let c = any_conn(1, SYM_FULL);
+    let m = srtla_core::selection::enhanced::vh_cc_soft_cap_multiplier(&c);
+    assert!(m >= 0.1 && m <= 1.0, "soft-cap factor within [0.1, 1] for every target / measured rate");
+    core::mem::forget(c);
 }
